@@ -43,6 +43,8 @@ def run(ctx):
     nvalid = len(schemas)
     invalid = [cfgcase.mutate_invalid(rng, rng.choice(schemas[:2000])) for _ in range(ctx.n(600, 4000))]
     schemas += invalid
+    # half of the schemas use names where the non-key / unknown names are contained in the key names
+    schemas = [dict(s, naming=(i % 2)) for i, s in enumerate(schemas)]
     chunks = list(common.chunks(schemas, 200))
     with ProcessPoolExecutor(max_workers=14, initializer=srvprops._init_worker) as ex:
         obs = [o for part in ex.map(_fk_worker, chunks) for o in part]
